@@ -43,7 +43,7 @@ MAX_ENERGY_DIFF_DEF = get_default_value(
 FORCEFIELD_DEF = get_default_value("conformer_generation", "forcefield")
 SEED_DEF = get_default_value("conformer_generation", "seed", int)
 OUTDIR_DEF = get_default_value("conformer_generation", "out_dir")
-COMPRESS_DEF = get_default_value("conformer_generation", "compress")
+COMPRESS_DEF = get_default_value("conformer_generation", "compress", int)
 
 
 def generate_conformers(
